@@ -244,10 +244,10 @@ Lemma exec_update : forall w l t push l' w',
       upd_entry w (l_url l) t (l_lang l) (l_ver l) = Some (ident_final w (l_url l) t e2))).
 Proof.
   intros w l t push l' w' Ht Hs Hu Hf H. cbn [exec] in H. destruct (s_lock w); [discriminate|].
-  rewrite Ht, Hs, Hu, Hf in H. fold (cur_dict w (l_url l)) in H. unfold installed, upd_entry, ident_final.
-  set (e1 := rebase _ _ _) in *.
-  destruct (stale (l_ver l) (e_ver e1)); [inversion H; split; [reflexivity|left; split; reflexivity]|].
-  set (e2 := bump _ e1) in *.
+  rewrite Ht, Hs, Hu, Hf in H. fold (cur_dict w (l_url l)) in H. unfold installed, outdated, upd_entry, ident_final.
+  set (e0 := match lookup (l_url l) (s_docs w) with Some e => e | None => _ end) in *.
+  destruct (stale (l_ver l) (e_ver e0)); [inversion H; split; [reflexivity|left; split; [reflexivity|symmetry; apply set_docs_id]]|].
+  set (e2 := rebase _ _ _) in *.
   destruct (e_lang e2) as [lg|]; [|inversion H; split; [reflexivity|left; split; reflexivity]].
   destruct (kind lg); [inversion H; split; [reflexivity|left; split; reflexivity]| |inversion H; split; [reflexivity|left; split; reflexivity]].
   destruct (e_ident e2 =? t_ident t); inversion H; (split; [reflexivity|]).
